@@ -414,6 +414,86 @@ def pointwise_props(ctx, rounds):
             ctx.violation(f"tw with weight one differs from {name}", {"fcst": pts[i][0], "obs": pts[i][1], "alpha": alpha}, float(b1.values[i]), float(a1.values[i]))
 
 
+def guard_probes(ctx):
+    """documented boundaries of the parameters and end points: just inside must be accepted, on / outside must raise ValueError"""
+    C = S()
+    f = xr.DataArray([0.0, 1.0, 2.5], dims=["x"])
+    o = xr.DataArray([0.5, 1.0, -1.0], dims=["x"])
+    eps = 1.0 / 1024
+    probes = []
+    for a in (0.0, 1.0, -eps, 1 + eps):
+        probes += [("tw_quantile_score", (a, (0.0, 1.0)), {}, False), ("tw_expectile_score", (a, (0.0, 1.0)), {}, False),
+                   ("consistent_quantile_score", (a, lambda x: x), {}, False), ("consistent_expectile_score", (a, lambda x: x ** 2, lambda x: 2 * x), {}, False)]
+    for a in (eps, 1 - eps):
+        probes += [("tw_quantile_score", (a, (0.0, 1.0)), {}, True), ("tw_expectile_score", (a, (0.0, 1.0)), {}, True),
+                   ("consistent_quantile_score", (a, lambda x: x), {}, True), ("consistent_expectile_score", (a, lambda x: x ** 2, lambda x: 2 * x), {}, True)]
+    for v, ok in ((0.0, False), (-eps, False), (eps, True)):
+        probes += [("tw_huber_loss", (v, (0.0, 1.0)), {}, ok), ("consistent_huber_score", (v, lambda x: x ** 2, lambda x: 2 * x), {}, ok)]
+    # end points: b == c and b > c rejected, b < c accepted; trapezoid: a == b / c == d rejected unless both infinite
+    for fn, pre in (("tw_squared_error", ()), ("tw_absolute_error", ()), ("tw_quantile_score", (0.5,)), ("tw_expectile_score", (0.5,)), ("tw_huber_loss", (1.0,))):
+        probes += [(fn, pre + ((1.0, 1.0),), {}, False), (fn, pre + ((1.0 + eps, 1.0),), {}, False), (fn, pre + ((1.0, 1.0 + eps),), {}, True),
+                   (fn, pre + ((-INF, INF),), {}, True), (fn, pre + ((INF, INF),), {}, False),
+                   (fn, pre + ((0.0, 1.0),), {"interval_where_positive": (0.0, 2.0)}, False),
+                   (fn, pre + ((0.0, 1.0),), {"interval_where_positive": (-1.0, 1.0)}, False),
+                   (fn, pre + ((0.0, 1.0),), {"interval_where_positive": (-eps, 1.0 + eps)}, True),
+                   (fn, pre + ((0.0, 1.0),), {"interval_where_positive": (-INF, 2.0)}, False),
+                   (fn, pre + ((0.0, 1.0),), {"interval_where_positive": (-1.0, INF)}, False),
+                   (fn, pre + ((-INF, 1.0),), {"interval_where_positive": (-INF, 2.0)}, True),
+                   (fn, pre + ((0.0, INF),), {"interval_where_positive": (-1.0, INF)}, True),
+                   (fn, pre + ((0.0, 1.0, 2.0),), {}, False)]
+    for fn, args, kw, ok in probes:
+        st, val = core.call_impl(getattr(C, fn), f, o, *args, **kw)
+        ctx.case(("guard", fn, repr(args[:1]), repr(sorted(kw)), ok))
+        good = (st == "ok") if ok else (st == "err" and val == "err:ValueError")
+        if not good:
+            shown = [a if not callable(a) else "<callable>" for a in args]
+            ctx.violation(f"{fn}: parameter / end-point guard at the documented boundary", {"fn": fn, "args": shown, "kwargs": kw},
+                          "accepted" if ok else "ValueError", st if st == "ok" else val)
+    ctx.count("guard_probes", len(probes))
+
+
+def replacement_props(ctx, rounds):
+    """an infinite end point must give the same scores as ANY finite end point beyond the data, whatever the relative ranges of
+    fcst and obs (rectangular and trapezoidal, one side or both)"""
+    rng = ctx.rng
+    for _ in range(rounds):
+        if not ctx.time_left():
+            break
+        n = rng.randint(1, 4)
+        fl, ol = rng.choice([(-8, 8), (-8, 0), (0, 8), (-2, 2)]), rng.choice([(-8, 8), (-8, 0), (0, 8), (-2, 2)])
+        F = xr.DataArray([float(Fr(rng.randint(*fl), 2)) for _ in range(n)], dims=["x"])
+        O = xr.DataArray([float(Fr(rng.randint(*ol), 2)) for _ in range(n)], dims=["x"])
+        lo = min(float(F.min()), float(O.min()))
+        hi = max(float(F.max()), float(O.max()))
+        b = float(Fr(rng.randint(-6, 4), 2))
+        c = b + float(Fr(rng.randint(1, 6), 2))
+        L1 = min(lo, b) - rng.choice([0.5, 1.0, 7.0])
+        L2 = L1 - rng.choice([0.5, 3.0])
+        U1 = max(hi, c) + rng.choice([0.5, 1.0, 7.0])
+        U2 = U1 + rng.choice([0.5, 3.0])
+        a, d = b - 1.5, c + 0.5
+        alpha, hub = rng.choice(ALPHAS), rng.choice(HUBERS)
+        configs = [("rect -inf", (-INF, c), None, (L1, c), None), ("rect +inf", (b, INF), None, (b, U1), None), ("rect both", (-INF, INF), None, (L1, U1), None),
+                   ("trap -inf", (-INF, c), (-INF, d), (L1, c), (L2, d)), ("trap +inf", (b, INF), (a, INF), (b, U1), (a, U2)),
+                   ("trap both", (-INF, INF), (-INF, INF), (L1, U1), (L2, U2))]
+        for fn in FNS:
+            p = param_for(rng, fn)
+            if fn in ("tw_quantile_score", "tw_expectile_score"):
+                p = alpha
+            elif fn == "tw_huber_loss":
+                p = hub
+            for name, one_i, pos_i, one_f, pos_f in configs:
+                ri = call_tw(fn, F, O, p, one_i, pos_i, pd="all")
+                rf = call_tw(fn, F, O, p, one_f, pos_f, pd="all")
+                ctx.case(("repl", fn, name, repr(F.values.tolist()), repr(O.values.tolist()), b, c))
+                if ri[0] != "ok" or rf[0] != "ok" or not np.allclose(ri[1].values, rf[1].values, rtol=1e-9, atol=1e-12):
+                    ctx.violation("infinite end point differs from a finite end point beyond the data range",
+                                  {"fn": fn, "param": p, "fcst": F.values.tolist(), "obs": O.values.tolist(), "config": name, "infinite": [one_i, pos_i], "finite": [one_f, pos_f]},
+                                  str(rf[1].values.tolist() if rf[0] == "ok" else rf[1]), str(ri[1].values.tolist() if ri[0] == "ok" else ri[1]))
+        ctx.count("replacement_rounds")
+
+
+
 def coord_order_finding(ctx):
     """results must not depend on the storage order of a shared coordinate (deterministic regression cases + recorded findings)"""
     C = S()
@@ -468,9 +548,9 @@ def coord_order_finding(ctx):
 def run(ctx):
     rng = ctx.rng
     kernel_grids(ctx)
-    consistent_grid(ctx)
     coord_order_finding(ctx)
-    pointwise_props(ctx, ctx.n(3, 40))
+    guard_probes(ctx)
+    replacement_props(ctx, ctx.n(6, 80))
     # ---- public functions vs model, structured random cases ----
     for i in range(ctx.n(260, 4000)):
         if not ctx.time_left():
@@ -539,3 +619,5 @@ def run(ctx):
             ctx.sample(d)
         if not ok:
             ctx.tie_fail(f"consistent_{kind}_score vs model: " + why, d, str(impl[1])[:300], str(m)[:300])
+    consistent_grid(ctx)
+    pointwise_props(ctx, ctx.n(3, 40))
